@@ -1042,6 +1042,11 @@ class list_t(object):
             def __next__(self):
                 if self.idx >= int(self.model.size.get_val()):
                     raise StopIteration()
+                elif self.l.is_enum:
+                    # As for indexing: the enumerator, not its internal code
+                    v = self.l.t.enum_i.v2e(self.model.field_l[self.idx].get_val())
+                    self.idx += 1
+                    return v
                 else:
                     # The model's view is always masked 2's complement
                     v = int(self.model.field_l[self.idx].get_val())
